@@ -917,8 +917,13 @@ func (w *WAL) Close() error {
 	defer w.writeMu.Unlock()
 
 	// It doesn't matter if there is a rotation scheduled because runRotate will
-	// exist when it sees we are closed anyway.
-	w.awaitRotate = nil
+	// exist when it sees we are closed anyway. But a writer may already be
+	// waiting for that rotation: wake it so it can observe that we are closed
+	// instead of blocking forever.
+	if w.awaitRotate != nil {
+		close(w.awaitRotate)
+		w.awaitRotate = nil
+	}
 	// Awake and terminate the runRotate
 	close(w.triggerRotate)
 
